@@ -1,7 +1,7 @@
 (* C17 - TVM stack values round-trip; the encoding follows the VmStack schema. *)
 From Coq Require Import NArith ZArith List Bool.
 From PTQ Require Import Base.Result Base.Bytes Base.Bits Model.Cell Model.Builder Model.VmStack
-  Spec.TlbPrim Proofs.VmStackProofs.
+  Spec.TlbPrim Proofs.VmStackProofs Proofs.VmSliceWindow.
 Import ListNotations.
 Local Open Scope Z_scope.
 
@@ -40,6 +40,29 @@ Theorem C17_chain : forall fuel vs v c, ser_stack_list fuel (v :: vs) = Ok c ->
     match cv with Cell _ vb vr => c = Cell ty_ordinary vb (cr :: vr) end.
 Proof. exact stack_list_chain. Qed.
 Print Assumptions C17_chain.
+
+(* a slice value written by someone else (the TVM) may denote a WINDOW of its cell: st_bits > 0, end_bits below the cell's
+   length, a window of the references; it is parsed as exactly that window (the library's writer always emits windows
+   starting at 0, so the round-trip theorems above never see this) *)
+Theorem C17_slice_window : forall ty bits refs sb eb sr er tb tr,
+  0 <= sb <= eb -> eb < 1024 -> 0 <= sr <= er -> er < 8 ->
+  dec_cellslice (mkS (enc 10 sb ++ enc 10 eb ++ enc 3 sr ++ enc 3 er ++ tb) (Cell ty bits refs :: tr)) =
+    Ok (VmSliceV (Bits.slice bits (Z.to_nat sb) (Z.to_nat eb)) (Bits.slice refs (Z.to_nat sr) (Z.to_nat er)), mkS tb tr).
+Proof. exact cellslice_window. Qed.
+Print Assumptions C17_slice_window.
+
+(* an inverted window ({ st_bits <= end_bits }, { st_ref <= end_ref } of the schema) is refused *)
+Theorem C17_slice_window_inverted : forall c sb eb sr er tb tr,
+  0 <= sb < 1024 -> 0 <= eb < 1024 -> 0 <= sr < 8 -> 0 <= er < 8 -> (eb < sb \/ er < sr) ->
+  exists e, dec_cellslice (mkS (enc 10 sb ++ enc 10 eb ++ enc 3 sr ++ enc 3 er ++ tb) (c :: tr)) = Err e.
+Proof. exact cellslice_window_inverted. Qed.
+Print Assumptions C17_slice_window_inverted.
+
+Example C17_slice_window_example :
+  dec_cellslice (mkS (enc 10 2 ++ enc 10 5 ++ enc 3 1 ++ enc 3 2 ++ [true])
+                     [Cell (-1) [true; false; true; true; false; false; true] [Cell (-1) [] []; Cell (-1) [true] []; Cell (-1) [false] []]])
+  = Ok (VmSliceV [true; true; false] [Cell (-1) [true] []], mkS [true] []).
+Proof. vm_compute. reflexivity. Qed.
 
 Example C17_example :
   let e := Cell (-1) [] [] in
